@@ -120,6 +120,9 @@ pub struct WalletSim {
     pub max_scanned_ever: u32,
     pub root_cache: BTreeMap<(Pool, [u8; 32]), [u8; 32]>,
     pub txlog: BTreeMap<Vec<u8>, Vec<String>>,
+    pub last_root_err: Option<String>,
+    /// retention-grid heights that were scanned when >=100 checkpoint-bearing blocks above them had already been scanned
+    pub late_boundaries: BTreeSet<u32>,
 }
 
 pub fn open_conn(path: &std::path::Path, wal: bool) -> Connection {
@@ -214,6 +217,8 @@ impl WalletSim {
             max_scanned_ever: 0,
             root_cache: BTreeMap::new(),
             txlog: BTreeMap::new(),
+            last_root_err: None,
+            late_boundaries: BTreeSet::new(),
         };
         let birthday = AccountBirthday::from_parts(s.chain.chain_state_at(s.cfg.base_height).unwrap(), None);
         for i in 0..s.cfg.n_accounts {
@@ -251,6 +256,7 @@ impl WalletSim {
 
     /// Generate one block according to the density configuration.
     pub fn gen_block(&mut self, r: &mut SubRng, ctx: &mut RunCtx) {
+        let t_gen = std::time::Instant::now();
         let height = self.chain.tip() + 1;
         let mut txs = vec![];
         if r.below(100) < self.cfg.tx_density {
@@ -318,6 +324,7 @@ impl WalletSim {
         }
         self.chain.push_block(txs, r);
         ctx.time("blocks_mined", 1);
+        ctx.time("cpu_us_chain_generation", t_gen.elapsed().as_micros() as u64);
     }
 
     /// Fork the chain at `h` (keep blocks <= h) and record the abandoned branch.
@@ -383,6 +390,7 @@ impl WalletSim {
         src.fail_in_call = source.fail_in_call;
         src.overrides = source.overrides.clone();
         let net = self.net;
+        let t_scan = std::time::Instant::now();
         let res = {
             let mut d = WalletDb::from_connection(&mut self.conn, self.net, self.clock.clone(), &mut self.rng);
             if let Some(r) = self.cfg.retention {
@@ -393,6 +401,7 @@ impl WalletSim {
         if src.fired.get() {
             ctx.fault("blocksource_error@k");
         }
+        ctx.time("cpu_us_scan_calls", t_scan.elapsed().as_micros() as u64);
         match res {
             Err(m) => Err(Violation::keyed("no_panic", format!("panic:{}", crate::runner::panic_site(&m)), format!("scan_cached_blocks({from},{limit}) panicked: {m}"))),
             Ok(Ok(sum)) => {
@@ -408,6 +417,18 @@ impl WalletSim {
     /// Record a successful scan of [a, b) of the current chain in the model.
     pub fn model_scanned(&mut self, a: u32, b: u32, ctx: &mut RunCtx) {
         let (notes, spent) = self.chain.ledger();
+        if let Some(act) = self.cfg.nu6_3 {
+            let step = self.cfg.retention.unwrap_or(144);
+            for h in (a..b).filter(|h| *h >= act && *h % step == 0) {
+                let above = (h + 1..=self.chain.tip()).filter(|x| (self.scanned.contains(x) || (a..b).contains(x)) && self.chain.block(*x).map(|blk| blk.cms.iter().any(|c| !c.is_empty())).unwrap_or(false)).count();
+                if above >= 100 {
+                    self.late_boundaries.insert(h);
+                    ctx.probe("retention_boundary_scanned_beyond_pruning_budget");
+                } else {
+                    self.late_boundaries.remove(&h);
+                }
+            }
+        }
         for h in a..b {
             if self.scanned.contains(&h) {
                 ctx.probe("rescan_idempotent_hit");
@@ -897,6 +918,7 @@ impl WalletSim {
                 // "not computable" (missing data) is reported by shardtree as a Query error
                 let s = format!("{e:?}");
                 if s.contains("Query") || s.contains("TreeIncomplete") || s.contains("CheckpointPruned") || s.contains("NotContained") {
+                    self.last_root_err = Some(s);
                     Ok(None)
                 } else {
                     Err(s)
@@ -992,6 +1014,10 @@ impl WalletSim {
                 pick.dedup();
                 idxs = pick;
             }
+            let (rstep, ract) = (self.cfg.nu6_3.map(|_| self.cfg.retention.unwrap_or(144)), self.cfg.nu6_3);
+            let on_grid = |h: u32| matches!((rstep, ract), (Some(st), Some(a)) if h >= a && h % st == 0);
+            let prunable_desc: Vec<u32> = cps.iter().rev().map(|x| x.0).filter(|h| !on_grid(*h)).collect();
+            let budget_floor = prunable_desc.get(99).copied().unwrap_or(0);
             for i in idxs {
                 let (id, pos) = cps[i];
                 if id <= self.cfg.base_height && id != self.cfg.base_height {
@@ -1009,8 +1035,10 @@ impl WalletSim {
                 match self.root_at(*pool, id) {
                     Err(e) => return viol(ctx, owns, Violation::new("root_query_succeeds", format!("{} root at {id}: {e}", pool.name()))),
                     Ok(None) => {
-                        if self.prefix_scanned(id) {
-                            return viol(ctx, owns, Violation::new("root_computable_when_scanned", format!("{} root at checkpoint {id} is not computable although every block from the birthday to {id} is scanned", pool.name())));
+                        // checkpoints older than the 100 newest prunable ones await lazy pruning; their tree data may be gone
+                        if self.prefix_scanned(id) && (id >= budget_floor || on_grid(id)) {
+                            let why = self.last_root_err.clone().unwrap_or_default();
+                            return viol(ctx, owns, Violation::new("root_computable_when_scanned", format!("{} root at checkpoint {id} is not computable although every block from the birthday to {id} is scanned ({why})", pool.name())));
                         }
                         ctx.shape("root_incomplete");
                     }
@@ -1027,13 +1055,22 @@ impl WalletSim {
         // (3) same checkpoint heights in all active pools at/above the newest of the oldest checkpoints
         let active: Vec<&(Pool, Vec<(u32, Option<u64>)>)> = sets.iter().filter(|(p, c)| !c.is_empty() && (*p != Pool::Ironwood || self.cfg.nu6_3.is_some())).collect();
         if active.len() >= 2 && self.dirty_fork.is_none() {
-            let floor = active.iter().map(|(_, c)| c.iter().map(|x| x.0).min().unwrap()).max().unwrap();
-            let s0: BTreeSet<u32> = active[0].1.iter().map(|x| x.0).filter(|x| *x >= floor).collect();
+            // Checkpoints on the retention grid are exempt from pruning (they are compared by oracle 4);
+            // the others are pruned lazily and per pool, so the comparison starts at the newest of the
+            // pools' oldest *prunable* checkpoints.
+            // (with NU6.3 active the wallet always retains a grid: the configured interval, or ZIP 318's 144 blocks)
+            let (step, act) = (self.cfg.nu6_3.map(|_| self.cfg.retention.unwrap_or(144)), self.cfg.nu6_3);
+            let exempt = |h: u32| matches!((step, act), (Some(st), Some(a)) if h >= a && h % st == 0);
+            let prunable = |c: &Vec<(u32, Option<u64>)>| -> BTreeSet<u32> { c.iter().map(|x| x.0).filter(|h| !exempt(*h)).collect() };
+            // only the 100 newest prunable checkpoints of a pool are stable; older ones await lazy pruning
+            let floor = active.iter().filter_map(|(_, c)| prunable(c).iter().rev().take(100).last().copied()).max().unwrap_or(0);
+            let s0: BTreeSet<u32> = prunable(&active[0].1).into_iter().filter(|x| *x >= floor).collect();
             for (p, c) in active.iter().skip(1) {
-                let s: BTreeSet<u32> = c.iter().map(|x| x.0).filter(|x| *x >= floor).collect();
+                let s: BTreeSet<u32> = prunable(c).into_iter().filter(|x| *x >= floor).collect();
                 if s != s0 {
                     let diff: Vec<u32> = s.symmetric_difference(&s0).copied().take(6).collect();
-                    return viol(ctx, owns, Violation::new("pools_checkpointed_at_same_heights", format!("{} vs {}: checkpoint heights differ at {:?} (comparison floor {floor})", p.name(), active[0].0.name(), diff)));
+                    let summary: Vec<String> = active.iter().map(|(p, c)| format!("{}: {} checkpoints {}..{}", p.name(), c.len(), c.first().map(|x| x.0).unwrap_or(0), c.last().map(|x| x.0).unwrap_or(0))).collect();
+                    return viol(ctx, owns, Violation::new("pools_checkpointed_at_same_heights", format!("{} vs {}: checkpoint heights differ at {:?} (comparison floor {floor}; {:?})", p.name(), active[0].0.name(), diff, summary)));
                 }
             }
             if active.iter().any(|(_, c)| c.len() > 100) {
@@ -1041,7 +1078,7 @@ impl WalletSim {
             }
         }
         // (4) retention grid
-        if let (Some(step), Some(act)) = (self.cfg.retention, self.cfg.nu6_3) {
+        if let (Some(step), Some(act)) = (self.cfg.nu6_3.map(|_| self.cfg.retention.unwrap_or(144)), self.cfg.nu6_3) {
             if self.dirty_fork.is_none() {
                 for (pool, cps) in &sets {
                     let ids: BTreeSet<u32> = cps.iter().map(|x| x.0).collect();
@@ -1049,7 +1086,14 @@ impl WalletSim {
                         ctx.oracle("retained_boundary_present");
                         if !ids.contains(&h) {
                             let newer = ids.iter().filter(|x| **x > h).count();
-                            return viol(ctx, owns, Violation::new("retention_boundary_checkpointed", format!("{}: scanned grid boundary {h} (interval {step}) has no checkpoint; {newer} newer checkpoints exist", pool.name())));
+                            let empty_here = self.chain.block(h).map(|b| b.cms[pool.i()].is_empty()).unwrap_or(true);
+                            let key = if self.late_boundaries.contains(&h) && empty_here {
+                                "retention_boundary_checkpointed:boundary_block_without_commitments_in_this_pool_scanned_after_100_newer_checkpoints"
+                            } else {
+                                "retention_boundary_checkpointed"
+                            };
+                            viol(ctx, owns, Violation::keyed("retention_boundary_checkpointed", key, format!("{}: scanned grid boundary {h} (interval {step}) has no checkpoint; {newer} newer checkpoints exist; block {h} has {} commitments in this pool", pool.name(), self.chain.block(h).map(|b| b.cms[pool.i()].len()).unwrap_or(0))))?;
+                            continue;
                         }
                         if ids.iter().filter(|x| **x > h).count() > 100 {
                             ctx.probe("retained_boundary_survived_pruning");
